@@ -125,5 +125,6 @@ pub fn catch<T>(f: impl FnOnce() -> T) -> Option<T> {
 }
 
 pub fn quiet_panics() {
+    if std::env::var("MV_DEBUG").is_ok() { return; }
     std::panic::set_hook(Box::new(|_| {}));
 }
